@@ -22,15 +22,15 @@ CHECKS = {
 }
 
 CHECKS['C02'] = (
-    'Lean 4 theorems (funcSet preservation of prune_shell, dedup, uncontract_general, uncontract_spdf for every max_am, make_general padding; '
-    'soundness of the sameFuncs checker) + differential execution of the Lean model of every operation against manip.py/sort.py per element + '
+    'Lean 4 theorems (funcSet preservation of prune_shell, dedup, uncontract_general, uncontract_spdf for every max_am, make_general padding; the whole operations prune_basis / uncontract_general / make_general including their pruning pass under semantic well-formedness; '
+    'sort_shell / sort_shells as permutations; soundness of the sameFuncs checker) + differential execution of the Lean model of every operation against manip.py/sort.py per element + '
     'the verified checker run on the implementation\'s input/output',
     'Proof (on the model): each re-contraction step keeps the set of contracted functions (momentum, exponent->coefficient map over exact rationals) '
     'for every valuation, every shell list and every max_am; the padding literal and the inner call sites are regenerated from manip.py and api.py; '
     'the checker the driver evaluates on the real input/output pairs is proved sound. The tie to the code is exact shell-list equality model = '
     'implementation per element for all operations, the get_basis flag subsets (interpreted from the regenerated option-block list) and two-step '
-    'sequences. Partial: the composition "core step then prune" and the sort permutation lemma are not yet proved end-to-end; shape promises and '
-    'sort idempotence are checked on the explored inputs.',
+    'sequences. The whole operations (core step, pruning pass, duplicate-shell removal) and sort_shell(s) are proved for every shell list whose columns are not the zero function (SemWF). '
+    'Partial: shape promises and sort idempotence are checked on the explored inputs; optimize_general and the float <r^2> keys are not in the theorem.',
     BASE_NOTE + 'Faithful hypothesis (float equality = decimal equality on the input numbers; measured per run). sort_basis float keys (<r^2>) are '
     'taken from the implementation and abstracted to ranks.', '6/C02')
 
